@@ -14,7 +14,7 @@ import sys
 
 from vcheck import Machinery, pmap
 
-TOK_PLAIN = r"(?P<SPACE>\s+)|(?P<a>a)|(?P<b>b)|(?P<c>c)"
+TOK_PLAIN = r"(?P<SPACE>\s+)|(?P<a>a)|(?P<b>b)|(?P<c>c)|(?P<d>d)"
 # keywords / synonyms configuration: two regex groups map to token 'a', a WORD value to 'b'
 # the keywords are declared for a token name that exists only through the synonyms (three groups are called 'a')
 # ... and a quoted word is a token of another kind (b) whose VALUE (the text between the quotes) may equal the value of an a
@@ -33,8 +33,8 @@ FAMILIES = {
     # left-recursion focused: three symbols, base alternatives (empty / 'a') and ONE sequence of 2..3 non-terminals
     # somewhere in the grammar, under every assignment of names to the roles
     'R3': (3, ['a'], 2, 3, 2, 0, 'nts'),
-    # wide common-prefix group: one symbol, up to 6 alternatives 'a' + (nothing | a | b | c | the symbol itself)
-    'W6': (1, ['a', 'b', 'c'], 6, 1, 3, 1),
+    # wide common-prefix group: one symbol, up to 6 alternatives 'a' + (nothing | a | b | c | d | the symbol itself)
+    'W6': (1, ['a', 'b', 'c', 'd'], 6, 1, 2, 1),
     # chain A -> B.. -> C..: each symbol uses later symbols only, as <<N>> or <<N, t>> (nullable heads of chains)
     'H3': (3, ['a', 'b'], 2, 2, 3, 0, 'chain'),
 }
@@ -220,6 +220,11 @@ def run_grammar(job):
             viol.append(('C02', 'conflict-free (LL(1)) grammar is rejected by the constructor with GrammarIsRecursive, so none of its '
                          'sentences can be parsed: start=%s prods=%s smart=%s' % (start, prods, smart),
                          {'g': gdesc, 'smart': smart, 'kw': kw, 'kind': 'ctor'}, []))
+    # C02: both smart_factorization settings must treat a conflict-free grammar alike
+    if case['ll1'] and not case['leftrec'] and len(ctor) == 2 and ctor[True] != ctor[False] and 'ok' in ctor.values():
+        viol.append(('C02', 'conflict-free (LL(1)) grammar: constructor gives %s with smart_factorization=True and %s with False: '
+                     'start=%s prods=%s' % (ctor[True], ctor[False], start, prods),
+                     {'g': gdesc, 'smart': True, 'kw': kw, 'kind': 'ctor'}, []))
     n = 0
     maxsteps = 0
     res_by_smart = {}
